@@ -526,6 +526,16 @@ func (env *Env) evalCall(x *ECall) Term {
 		fv.kindUsed = true
 		fv.decls.Add(1, "pv_kind", "(declare-fun pv_kind (Int) Int)\n(declare-fun pv_telem (Int) Int)\n(declare-fun pv_tkey (Int) Int)\n(assert (= (pv_kind 0) 0))")
 		return Term{S: "(pv_kind " + a.S + ")", Sort: SInt, T: types.Typ[types.Int]}
+	case "telem", "tkey":
+		a := env.Eval(x.Args[0])
+		fv.kindUsed = true
+		fv.decls.Add(1, "pv_kind", "(declare-fun pv_kind (Int) Int)\n(declare-fun pv_telem (Int) Int)\n(declare-fun pv_tkey (Int) Int)\n(assert (= (pv_kind 0) 0))")
+		return Term{S: "(pv_" + x.Fn + " " + a.S + ")", Sort: SInt, T: types.Typ[types.Int]}
+	case "evalphase":
+		// true in every package except the parser: ASTs seen outside the parser come from error-free parses
+		fv.decls.Add(1, "pv_evalphase", "(declare-const pv_evalphase Bool)")
+		fv.usesEvalPhase = true
+		return Term{S: "pv_evalphase", Sort: SBool}
 	case "pay":
 		a := env.Eval(x.Args[0])
 		return Term{S: "(pv_pay " + a.S + ")", Sort: SInt, T: types.Typ[types.Int]}
